@@ -17,7 +17,9 @@
 (* Variant = "design"        intended behaviour                                                    *)
 (*           "impl_clamp"    D1: clamp index min(.., len(letters)) instead of len(letters)-1         *)
 (*           "impl_limit"    D3: asFastq refuses only above Limit+1                                  *)
-(*           "impl_plus"     D20: fqSafe at decode drops '+' of a dual sequencing index              *)
+(*           "impl_plus"     D140: fqSafe at decode drops '+' of a dual sequencing index             *)
+(*           "drop_empty"    (seeded edit, not the pinned code) asFastq skips tags whose value is falsy: *)
+(*                           an empty sequencing index (header "... 1:N:0:") is never restored          *)
 EXTENDS Integers, Sequences, FiniteSets, TLC, Json, Util, CodecP
 
 CONSTANTS ValChars,     \* characters library names are made of
@@ -36,7 +38,7 @@ Txt(s) == s    \* readability: constants below are code sequences
 cA == <<65>>   \* "A"
 c1 == <<49>>
 
-IdxText(kind) == IF kind = "dual" THEN <<71, 43, 67>> ELSE <<71>>
+IdxText(kind) == IF kind = "dual" THEN <<71, 43, 67>> ELSE IF kind = "empty" THEN <<>> ELSE <<71>>
 SeqsUpTo(S, n) == UNION { [1 .. m -> S] : m \in 1 .. n }
 
 Init == /\ inp \in [ ly : SeqsUpTo(ValChars, MaxLy), uq : SeqsUpTo(QChars, MaxUmi), idx : { IdxText(x) : x \in Indexes } ]
@@ -46,8 +48,8 @@ Init == /\ inp \in [ ly : SeqsUpTo(ValChars, MaxLy), uq : SeqsUpTo(QChars, MaxUm
 (* the tags the demultiplexer would write for this input, qualities still raw *)
 RawTags == << <<"Is", <<64, 77>> >>,             \* "@M": the instrument field keeps the '@' of the FASTQ header line
               <<"La", c1>>, <<"CX", <<55>> >>, <<"RP", c1>>,   \* RP is doNotWrite
-              <<"aa", inp.idx>>, <<"aA", inp.idx>>,
-              <<"LY", inp.ly>>,
+              <<"aa", inp.idx>> >> \o (IF inp.idx = <<>> THEN <<>> ELSE << <<"aA", inp.idx>> >>) \o    \* no index: no corrected index
+           <<               <<"LY", inp.ly>>,
               <<"RX", [i \in DOMAIN inp.uq |-> 65]>>, <<"RQ", inp.uq>>,
               <<"bi", c1>>, <<"MX", <<83>> >>, <<"BC", <<67, 71>> >> >>
 
@@ -71,7 +73,8 @@ AsFastq ==
     /\ pc = "asfastq"
     /\ IF HeaderLen(tags) > Bound
        THEN err' = "refused" /\ pc' = "done" /\ UNCHANGED name      \* ValueError("The length of the demultiplexed header ...")
-       ELSE name' = Header(tags) /\ pc' = "align" /\ UNCHANGED err
+       ELSE name' = Header(IF Variant = "drop_empty" THEN SelectSeq(tags, LAMBDA t : Len(t[2]) > 0) ELSE tags)
+            /\ pc' = "align" /\ UNCHANGED err
     /\ UNCHANGED << inp, tags, dec, bam, qname >>
 
 Align ==
